@@ -29,7 +29,9 @@ def verify(d):
         r = sh("git -C %s worktree add -f --detach %s main" % (REPO, WT))
         assert r.returncode == 0, r.stdout
     sh("git -C %s checkout -q --detach main && git -C %s checkout -- . && git -C %s clean -fdq" % (WT, WT, WT))
-    env = dict(os.environ, PYTHONPATH=WT + "/src")
+    tmpd = WT + "-tmp"
+    os.makedirs(tmpd, exist_ok=True)
+    env = dict(os.environ, PYTHONPATH=WT + "/src", TMPDIR=tmpd)
     res = {"property": meta["property"]}
     r = sh("/venv/bin/python %s/demo.py" % d, cwd=WT, env=env, timeout=600)
     res["demo_clean_rc"] = r.returncode
@@ -46,6 +48,7 @@ def verify(d):
     res["demo_patched_rc"] = r.returncode
     res["demo_patched_out"] = r.stdout[-400:]
     sh("git -C %s checkout -- . && git -C %s clean -fdq" % (WT, WT))
+    sh("rm -rf %s" % tmpd)
     ok = res["demo_clean_rc"] == 0 and res["tests_pass"] and res["demo_patched_rc"] != 0
     res["confirmed"] = ok
     print(json.dumps(res, indent=1))
